@@ -63,7 +63,7 @@ def part1(M):
     return h
 
 
-PROOFS = ["right", "wrong-code", "arbitrary", "short", "absent"]
+PROOFS = ["right", "wrong-code", "arbitrary", "short", "front-truncated", "empty", "absent"]
 M6S = ["honest", "absent", "arbitrary", "truncated", "wrong-key-label", "wrong-nonce", "inner"]
 INNER_ID = ["own", "absent"]
 INNER_PK = ["own", "other-key", "absent"]
@@ -96,6 +96,10 @@ def part2(M):
             proof = be.arbitrary("proof", 64, avoid=[right_proof] if be.sym else ())
         elif psel == "short":
             proof = as_rope(right_proof).slice(0, 63) if be.sym else bytes(right_proof)[:63]
+        elif psel == "front-truncated":
+            proof = as_rope(right_proof).slice(1, 64) if be.sym else bytes(right_proof)[1:]
+        elif psel == "empty":
+            proof = b""
         else:
             proof = None
         fields = [(T_STATE, b"\x04")] + ([(T_PROOF, proof)] if proof is not None else [])
@@ -217,12 +221,15 @@ def part2(M):
 def build(tier, mutate=None):
     C = copies(mutate)
     R = reals()
-    return [
+    units = [
         Unit("setup/part1-M2", part1(C), part1(R), bounds={"fields": "salt / public key present or absent"}, regions=["returned", "rejected"]),
         Unit("setup/part2-M4-M6", part2(C), part2(R), split=True,
              bounds={"M4 proof": PROOFS, "M6": M6S, "M6 sub-TLV": {"identifier": INNER_ID, "public key": INNER_PK, "signature": INNER_SIG}},
              regions=["m4-rejected", "m6-rejected", "paired"]),
     ]
+    for u in units:
+        u.diff_sample = 100000  # every proved path is also replayed with real SRP / Ed25519 / ChaCha20 on the real library
+    return units
 
 
 CANARIES = [
